@@ -252,15 +252,15 @@ class Array(Environment):
             """
             if tocells is None:
                 tocells = self
-            for cell in self:
+            for i, cell in enumerate(self):
                 horiz, vert = cell.borders
                 # Horizontal borders go across all columns
                 for border in horiz:
                     border.applyBorders(tocells, location=location)
                 # Vertical borders only get applied to the same column
-                for applyto in tocells:
+                if i < len(tocells):
                     for border in vert:
-                        border.applyBorders([applyto], location=location)
+                        border.applyBorders([tocells[i]], location=location)
 
         @property
         def isBorderOnly(self):
